@@ -286,6 +286,7 @@ def run(chk):
     chk.configs.append("K6")
     sub6 = report.Check("C09", chk.tier)
     check_reads(sub6, p6, S.Sim(p6))
+    check_links(sub6, p6, S.Sim(p6))
     chk.evaluations += sub6.evaluations
     for v in sub6.violations:
         chk.violation(v["rule"], v["key"] + "@K6", "[release profile] " + v["what"], **v["detail"])
